@@ -300,6 +300,52 @@ impl<C: ContentAddrStore> UnsealedState<C> {
     }
 }
 
+/// Read-only snapshot of an [UnsealedState], only compiled for the verification harness (`--cfg melstf_verif`).
+#[cfg(melstf_verif)]
+#[derive(Derivative, Debug)]
+#[derivative(Clone(bound = ""))]
+pub struct VerifView<C: ContentAddrStore> {
+    pub network: NetID,
+    pub height: BlockHeight,
+    pub history: novasmt::Tree<C>,
+    pub coins: novasmt::Tree<C>,
+    pub pools: novasmt::Tree<C>,
+    pub transactions: Vec<Transaction>,
+    pub fee_pool: CoinValue,
+    pub fee_multiplier: u128,
+    pub tips: CoinValue,
+    pub dosc_speed: u128,
+    pub stakes: StakeSet,
+}
+
+#[cfg(melstf_verif)]
+impl<C: ContentAddrStore> UnsealedState<C> {
+    /// Clones out every component of the unsealed state, without changing it.
+    pub fn verif_view(&self) -> VerifView<C> {
+        VerifView {
+            network: self.network,
+            height: self.height,
+            history: self.history.mapping.clone(),
+            coins: self.coins.inner().clone(),
+            pools: self.pools.mapping.clone(),
+            transactions: self.transactions.iter().cloned().collect(),
+            fee_pool: self.fee_pool,
+            fee_multiplier: self.fee_multiplier,
+            tips: self.tips,
+            dosc_speed: self.dosc_speed,
+            stakes: self.stakes.clone(),
+        }
+    }
+}
+
+#[cfg(melstf_verif)]
+impl<C: ContentAddrStore> SealedState<C> {
+    /// Read-only snapshot of the state inside a sealed state.
+    pub fn verif_view(&self) -> VerifView<C> {
+        self.0.verif_view()
+    }
+}
+
 /// SealedState represents an immutable state at a finalized block height.
 /// It cannot be constructed except through sealing a State or restoring from persistent storage.
 ///
